@@ -21,7 +21,8 @@ var tableFuncs = map[string]LGFunction{
 
 func tableSort(L *LState) int {
 	tbl := L.CheckTable(1)
-	sorter := lValueArraySorter{L, nil, tbl.array}
+	// only the elements 1..#t: the array part may end in nil slots left by t[#t] = nil
+	sorter := lValueArraySorter{L, nil, tbl.array[:tbl.Len()]}
 	if L.GetTop() != 1 {
 		sorter.Fn = L.CheckFunction(2)
 	}
